@@ -76,7 +76,7 @@ fn gen_plan(seed: u64) -> LocalPlan {
                     LOp::Clone { h }
                 }
                 64..=69 => LOp::Drop { h },
-                70..=74 if is_vec && nthreads == 1 => LOp::Remove { h, t },
+                70..=76 if is_vec && nthreads == 1 => LOp::Remove { h, t },
                 75..=82 => LOp::LocalGet { h, t },
                 83..=90 => {
                     bit += 1;
@@ -86,6 +86,28 @@ fn gen_plan(seed: u64) -> LocalPlan {
             };
             ops.push(op);
             nops += 1;
+        }
+        if is_vec && nthreads == 1 && r.chance(25) {
+            // two handles cache the same child; it is removed through one of them, then the other
+            // handle removes (refused: already gone), updates and flushes the same label values
+            let t = r.below(TUPLES.len() as u64) as usize;
+            let h2 = if nh < 3 {
+                ops.push(LOp::Clone { h: 0 });
+                nh += 1;
+                nh - 1
+            } else {
+                1
+            };
+            bit += 3;
+            ops.push(LOp::Add { h: h2, bit: bit - 3, t });
+            ops.push(LOp::Add { h: 0, bit: bit - 2, t });
+            if r.chance(50) {
+                ops.push(LOp::Flush { h: h2 });
+            }
+            ops.push(LOp::Remove { h: 0, t });
+            ops.push(LOp::Remove { h: h2, t });
+            ops.push(LOp::Add { h: h2, bit: bit - 1, t });
+            ops.push(LOp::Flush { h: h2 });
         }
         ops.push(LOp::Read);
         threads.push(ops);
